@@ -5,7 +5,6 @@ import (
 	"context"
 	"fmt"
 	"io"
-	"strconv"
 
 	"github.com/hashicorp/go-retryablehttp"
 )
@@ -29,13 +28,17 @@ func DoH(ctx context.Context, msg *Message, URL string) (*Message, error) {
 	if resp.StatusCode != 200 {
 		return nil, fmt.Errorf("status code %d", resp.StatusCode)
 	}
-	sz, err := strconv.Atoi(resp.Header.Get("content-length"))
-	if err != nil || sz < 0 || sz > 65535 {
+	// A response may come without a Content-Length header, e.g. with
+	// chunked transfer coding. A DNS message has at most 65535 octets.
+	if resp.ContentLength > 65535 {
 		return nil, ErrDecodeError
 	}
-	body := make([]byte, sz)
-	if _, err := io.ReadFull(resp.Body, body); err != nil {
+	body, err := io.ReadAll(io.LimitReader(resp.Body, 65536))
+	if err != nil {
 		return nil, err
+	}
+	if len(body) > 65535 {
+		return nil, ErrDecodeError
 	}
 	return DecodeMessage(body)
 }
